@@ -137,6 +137,28 @@ struct C12 : Prop {
 				ev.push(e);
 			}
 			ph.set("bus", ev); ph.set("adv", adv);
+			// the application keeps working meanwhile (train commands write-lock the train table, getters read everything): whatever arrives,
+			// neither the receiver nor an application call may end up blocked for good
+			if (normal && r.chance(400)) {
+				api::Ids ids = api::collect(w);
+				J tasks = J::arr();
+				for (int q = 0, nt = (int) r.range(1, 2); q < nt; q++) {
+					J ops = J::arr();
+					for (int i = 0, no = (int) r.range(3, 14); i < no; i++) {
+						uint64_t y = r.below(100);
+						if (y < 50 && !w.trains.empty() && !ids.tos.empty()) {
+							J o = J::obj(); o.set("op", "hl"); J sv = J::arr(); J iv = J::arr(); const cfg::Train &t = w.trains[r.below(w.trains.size())];
+							sv.push(t.id);
+							if (!t.periphs.empty() && r.coin()) { o.set("fn", "set_train_peripheral"); sv.push(t.periphs[r.below(t.periphs.size())].id); sv.push(ids.tos[r.below(ids.tos.size())]); iv.push((int) r.below(2)); }
+							else { o.set("fn", "set_train_speed"); sv.push(ids.tos[r.below(ids.tos.size())]); iv.push((int) r.range(-126, 126)); }
+							o.set("s", sv); o.set("i", iv); ops.push(o);
+						} else if (y < 80) ops.push(api::get_op(r, ids, w));
+						else { J sl = J::obj(); sl.set("op", "sleep"); sl.set("us", 5000); ops.push(sl); }
+					}
+					tasks.push(ops);
+				}
+				ph.set("tasks", tasks);
+			}
 			J post = J::arr(); post.push("quiesce_noflush"); ph.set("post", post);
 			phs.push(ph);
 			// drain, then probes
